@@ -160,4 +160,15 @@ def cases(ctx, tier):
                 out.append((' '.join(toks), name))
     ctx.extra_cov['partitions_enumerated'] = nparts
     ctx.extra_cov['exhaustive_over'] = 'alias partitions of the object arguments of every function in the regenerated prototype table'
+    # heap-level model of mpz_add / mpz_sub (C05_heap_aors): operands that own exactly the limbs they need, every alias pattern,
+    # results that need one more limb than the destination has (the reallocation moves the block of an aliased source)
+    rh = ctx.rng('heap')
+    for _ in range(1500 if tier == 'quick' else 15000):
+        n1 = rh.randrange(0, 6); n2 = rh.randrange(0, 6)
+        u = limbs_value(rh, n1, rh.choice(['ones', 'uniform', 'topmax', 'top1'])) if n1 else 0
+        v = limbs_value(rh, n2, rh.choice(['ones', 'uniform', 'topmax', 'top1'])) if n2 else 0
+        if rh.random() < 0.2: v = u
+        if rh.random() < 0.15 and u: v = ((1 << (64 * n1)) - u)       # carry into a new limb
+        u *= rh.choice([1, -1]); v *= rh.choice([1, -1])
+        out.append(('mpz_aors_heap %d %s %s %d' % (rh.getrandbits(1), hx(u), hx(v), rh.randrange(5)), 'heap-aors'))
     return out
